@@ -116,4 +116,13 @@ def run(facts, rep, tier, ctx):
     h = Handles(facts, False, D)
     k = h.seek_rules(rep, "R02.4", "R02.4") + h.read_rules(rep, "R02.4") + h.writer_rules(rep, "R02.4", "R02.4", "R02.4t")
     rep.floor("in-memory handle obligations", k, 23)
+    wa = World(facts, True)
+    rep.ob("R02.A", "async_vfs", "async world present", wa.present(), "", "")
+    if wa.present():
+        from .c10 import _Prefixed
+        A = _Prefixed(rep, "A")
+        ha = Handles(facts, True, D)
+        k = ha.seek_rules(A, "R02.4", "R02.4") + ha.read_rules(A, "R02.4") + ha.writer_rules(A, "R02.4", "R02.4", "R02.4t")
+        k += physrules.table_o_shape(facts, A, "R02.2p", wa)
+        rep.floor("async in-memory handle / physical obligations", k, 40)
     rep.assume("Table O is what Linux/POSIX enforce for the std calls; O_APPEND seek semantics are excluded by the property")
